@@ -24,32 +24,60 @@ def base_graphs(tier):
     return gs
 
 
+class _FreshMap(dict):
+    """relabelling map whose every lookup returns a NEW object equal to the label (runtime-built strings, tuples, integers above
+    the small-int cache): code that compares labels by identity (`is`) instead of equality then sees different objects for the
+    same node"""
+
+    def __init__(self, mk, nodes):
+        dict.__init__(self, {u: mk(u) for u in nodes})
+        self.mk = mk
+
+    def __getitem__(self, u):
+        return self.mk(u)
+
+
 def relabelings(G, tier, seed=0):
     nodes = list(G.nodes())
     rng = pyrandom.Random(seed)
     maps = []
-    maps.append(('string labels', {u: 'v%s' % u for u in nodes}))
+    maps.append(('string labels', _FreshMap(lambda u: ''.join(['v', str(u)]), nodes)))
     perm = nodes[:]
     rng.shuffle(perm)
-    maps.append(('permuted integers', dict(zip(nodes, perm))))
+    pd = dict(zip(nodes, perm))
+    maps.append(('permuted integers', dict(pd)))
     maps.append(('reversed insertion order', {u: u for u in nodes}))
+    maps.append(('large integers', _FreshMap(lambda u, pd=pd: int(str(1000 + 7 * pd[u])), nodes)))
     if tier != 'quick':
-        maps.append(('tuple labels', {u: (u, 'x') for u in nodes}))
+        maps.append(('tuple labels', _FreshMap(lambda u: tuple([u, 'x']), nodes)))
     out = []
     for nm, m in maps:
-        H = nx.Graph()
+        H = nx.DiGraph() if G.is_directed() else nx.Graph()
         order = [m[u] for u in nodes]
         if nm == 'reversed insertion order':
             order = order[::-1]
         else:
             rng.shuffle(order)
         H.add_nodes_from(order)
-        edges = [(m[u], m[v]) for u, v in G.edges()]
-        rng.shuffle(edges)
-        edges = [(b, a) if rng.random() < 0.5 else (a, b) for a, b in edges]
+        edges = [(m[u], m[v], dict(d)) for u, v, d in G.edges(data=True)]
+        if nm == 'reversed insertion order':
+            edges = edges[::-1]
+        else:
+            rng.shuffle(edges)
+        if not G.is_directed():
+            edges = [(b, a, d) if rng.random() < 0.5 else (a, b, d) for a, b, d in edges]
         H.add_edges_from(edges)
         out.append((nm, m, H))
     return out
+
+
+def weighted_digraph():
+    """directed contacts with different weights in the two directions of reciprocal pairs"""
+    D = nx.DiGraph()
+    D.add_nodes_from(range(5))
+    for (u, v, w) in [(0, 1, 0.5), (1, 0, 2.0), (1, 2, 1.5), (2, 1, 0.25), (2, 3, 1.0), (3, 0, 0.75), (0, 3, 1.75), (3, 4, 1.25)]:
+        D.add_edge(u, v, w=w)
+    return D
 
 
 def observe(name, G, kw0, extra=None, numeric=False):
@@ -145,16 +173,20 @@ def obligations(tier='quick', seed=0):
         sig = inspect.signature(f)
         t1 = time.time()
         bad, nruns, err = [], 0, None
-        for gname, G in base_graphs(tier):
+        glist = list(base_graphs(tier))
+        if 'transmission_weight' in sig.parameters and ('individual_based' in name or 'pair_based' in name):
+            glist.append(('weighted digraph (asymmetric reciprocal weights)', weighted_digraph()))
+        for gname, G in glist:
             nodes = list(G.nodes())
             modes = []
+            wkw = dict(transmission_weight='w') if G.is_directed() else {}
             if 'rho' in sig.parameters:
-                modes.append(('rho', lambda m: dict(rho=sp.Rational(1, 5))))
+                modes.append(('rho', lambda m, wkw=wkw: dict(wkw, rho=sp.Rational(1, 5))))
             if 'initial_infecteds' in sig.parameters:
                 if 'initial_recovereds' in sig.parameters:
-                    modes.append(('sets', lambda m: dict(initial_infecteds=[m[nodes[0]], m[nodes[2]]], initial_recovereds=[m[nodes[4]]])))
+                    modes.append(('sets', lambda m, wkw=wkw: dict(wkw, initial_infecteds=[m[nodes[0]], m[nodes[2]]], initial_recovereds=[m[nodes[4]]])))
                 else:
-                    modes.append(('sets', lambda m: dict(initial_infecteds=[m[nodes[0]], m[nodes[2]]])))
+                    modes.append(('sets', lambda m, wkw=wkw: dict(wkw, initial_infecteds=[m[nodes[0]], m[nodes[2]]])))
             for mode, mk in modes:
                 numeric = False
                 try:
@@ -206,6 +238,55 @@ def obligations(tier='quick', seed=0):
                           [g for g, _ in base_graphs(tier)], ', tuple labels' if tier != 'quick' else ''),
                       witness=bad[0] if bad else None, replayed=True if bad else None, engine='E3',
                       replay_note='%d relabelled runs, %d differing' % (nruns, len(bad))))
+    return out
+
+
+def solved_curves_obligations(tier='quick', seed=0):
+    """node-level ODE models (individual-based, pair-based): the curves actually integrated (real odeint, no stub) on the relabelled /
+    re-ordered graph coincide with those on the original graph to 1e-6.  Complements the derivative comparison at tmin, which cannot
+    see terms that vanish on a pure initial condition."""
+    import EoN
+    out = []
+    names = [n for n in wrappers() if ('individual_based' in n or 'pair_based' in n)]
+    for name in names:
+        f = getattr(EoN, name)
+        sig = inspect.signature(f)
+        t1 = time.time()
+        bad, nruns = [], 0
+        glist = list(base_graphs(tier)) + [('weighted digraph (asymmetric reciprocal weights)', weighted_digraph())]
+        for gname, G in glist:
+            nodes = list(G.nodes())
+            wkw = dict(transmission_weight='w') if G.is_directed() else {}
+
+            def call(H, m):
+                kw = dict(wkw, tmin=0.5, tmax=2.5, tcount=5)
+                if 'initial_infecteds' in sig.parameters:
+                    kw['initial_infecteds'] = [m[nodes[0]], m[nodes[2]]]
+                else:
+                    kw['rho'] = 0.3
+                r = f(H, 0.7, 1.3, **kw)
+                return [np.asarray(a, dtype=float) for a in r[:3]]
+            try:
+                ref = call(G, {u: u for u in nodes})
+            except Exception as e:
+                bad.append(dict(graph=gname, observed='reference run: %s: %s' % (type(e).__name__, str(e)[:120])))
+                continue
+            for rname, m, H in relabelings(G, tier, seed):
+                nruns += 1
+                try:
+                    got = call(H, m)
+                    dev = max(float(np.abs(a - b).max()) for a, b in zip(ref, got))
+                except Exception as e:
+                    bad.append(dict(graph=gname, relabelling=rname, observed='%s: %s' % (type(e).__name__, str(e)[:120])))
+                    continue
+                if not dev <= 1e-6:
+                    bad.append(dict(graph=gname, relabelling=rname, nodes=[str(x) for x in H.nodes()], edges=[[str(a), str(b)] for a, b in H.edges()],
+                                    observed='integrated curves differ by %.3g between the original and the relabelled graph (tau=0.7, gamma=1.3, t in [0.5, 2.5])' % dev))
+        out.append(Ob('native:%s:solved-curves-relabelling-invariant' % name, 'EoN/analytic.py:%s' % name, 'post', 'bounded-refuted' if bad else 'bounded-ok',
+                      backend='real numeric solves (scipy odeint) on the original and the relabelled graph', seconds=round(time.time() - t1, 2),
+                      detail=bad[0]['observed'] if bad else '', site='EoN/analytic.py:%s' % name,
+                      bounded='graphs %s x relabellings with fresh label objects; 5 report times; tolerance 1e-6' % [g for g, _ in glist],
+                      witness=bad[0] if bad else None, replayed=True if bad else None, engine='E5-bounded', replay_note='%d relabelled solves' % nruns))
     return out
 
 
